@@ -382,7 +382,32 @@ def eval_charge(case):
     nq = chinfo.qnumber
     mods = [int(m) for m in chinfo.mod]
     L = psi.L
-    hist = ['ext.charge.how=' + how, 'ext.charge.bc=' + psi.bc, 'ext.charge.L=%d' % L,
+    # a good share of the finite / boundary-free segment chains gets a left-most virtual leg with a NONZERO charge:
+    # from_product_state(chargeL=...), or a gauge to a shifted vL_leg; then canonical_form / convert_form
+    pre = 'none'
+    if psi.bc in ('finite', 'segment') and psi.segment_boundaries[0] is None and rnd.random() < 0.6:
+        shift = [rnd.choice([-2, -1, 1, 2, 3]) for _ in range(nq)]
+        if how == 'product' and rnd.random() < 0.6:
+            from tenpy.networks.mps import MPS
+            labs = [rnd.choice(sorted(st_.state_labels)) for st_ in psi.sites]
+            psi = MPS.from_product_state(psi.sites, labs, bc=psi.bc, chargeL=shift, form=rnd.choice(['A', 'B', 'C']),
+                                         unit_cell_width=L)
+            pre = 'chargeL'
+        else:
+            try:
+                psi.gauge_total_charge(vL_leg=shifted_leg(psi._B[0].get_leg('vL'), shift, False))
+                pre = 'vL_leg'
+            except ValueError:
+                pre = 'none'
+        if pre != 'none' and psi.bc == 'finite':
+            r = rnd.random()
+            if r < 0.3:
+                psi.canonical_form()
+                pre += '+canonical_form'
+            elif r < 0.6 and all(f is not None for f in psi.form):
+                psi.convert_form('A')
+                pre += '+convert_form'
+    hist = ['ext.charge.how=' + how, 'ext.charge.pre=' + pre, 'ext.charge.bc=' + psi.bc, 'ext.charge.L=%d' % L,
             'ext.charge.mod=%s' % mods]
     oracle, lines, expects = [], [], []
     U, V = psi.segment_boundaries
@@ -401,7 +426,7 @@ def eval_charge(case):
         st = mc.np_state(psi)
         idx = tuple(int(x) for x in np.unravel_index(int(np.argmax(np.abs(st))), st.shape))
         q = np.sum([s.leg.to_qflat()[i] for s, i in zip(psi.sites, idx)], axis=0)
-        want = chinfo.make_valid(q)
+        want = want_phys = chinfo.make_valid(q)
         if totp is not None and np.any(totp != want):
             oracle.append(('C07.ext.charge.total-physical', 'get_total_charge(True)=%r, support has %r' % (totp, want)))
     # gauge
@@ -474,6 +499,11 @@ def eval_charge(case):
             want = chinfo.make_valid(np.sum(np.asarray(kw['qtotal']).reshape(-1, nq), axis=0))
             if np.any(p2.get_total_charge() != want):
                 oracle.append(('C07.ext.charge.gauge-total', 'requested %r got %r' % (want, p2.get_total_charge())))
+        if psi.bc == 'finite':
+            # whatever the virtual legs were gauged to: the physical total charge is the charge sector of the dense state
+            if np.any(p2.get_total_charge(True) != want_phys):
+                oracle.append(('C07.ext.charge.total-physical-after-gauge', 'get_total_charge(True)=%r after gauge_total_charge(%r), '
+                               'support has %r' % (p2.get_total_charge(True), gj, want_phys)))
         if psi.bc == 'finite' and 'vL_leg' not in kw and 'vR_leg' not in kw:
             if np.any(p2.get_total_charge(True) != totp):
                 oracle.append(('C07.ext.charge.gauge-physical-charge', '%r -> %r' % (totp, p2.get_total_charge(True))))
